@@ -24,7 +24,7 @@ class StaleWriter(actors.Party):
     def step(self):
         r = self.r
         b = r.choice(self.buckets)
-        if r.random() < 0.2:
+        if r.random() < 0.35:
             return {"op": "other_store", "b": b, "ev": self.ev()}
         if r.random() < 0.5:
             return {"op": "insert_stale", "b": b, "ev": self.ev()}
@@ -60,6 +60,10 @@ class C04(Check):
         steps = actors.creates(rs["meta"], buckets, cfg)
         # populate: every bucket gets a few events on the shared lattice
         pr = rs["populate"]
+        if pr.random() < 0.25:
+            # another store object of the same kind is used first, with the same bucket ids
+            for b in pr.sample(buckets, pr.randrange(1, len(buckets) + 1)):
+                steps.append({"op": "other_store", "b": b, "ev": gen.event(pr, lat), "actor": "stale"})
         for b in buckets:
             if pr.random() < 0.9:
                 n = pr.randrange(1, 6)
